@@ -594,3 +594,92 @@ func (env Env) relax(n *NF) (lo, hi *Lin) {
 	}
 	return nil, nil
 }
+
+// EvalRange evaluates the numeric range of an integer/duration expression by
+// interval arithmetic over env (symbols = canonical strings of leaves). It
+// models %, which normal forms cannot.
+func EvalRange(e *Expr, env Env) (Rng, bool) {
+	if nf, ok := Norm(e); ok {
+		r := env.RangeOf(nf)
+		return r, r.Lo != nil && r.Hi != nil
+	}
+	switch e.Op {
+	case OpPhi:
+		var out Rng
+		for i, a := range e.Args {
+			r, ok := EvalRange(a, env)
+			if !ok {
+				return Rng{}, false
+			}
+			if i == 0 {
+				out = r
+				continue
+			}
+			if r.Lo.Cmp(out.Lo) < 0 {
+				out.Lo = r.Lo
+			}
+			if r.Hi.Cmp(out.Hi) > 0 {
+				out.Hi = r.Hi
+			}
+		}
+		return out, len(e.Args) > 0
+	case OpConv:
+		r, ok := EvalRange(e.Args[0], env)
+		if !ok {
+			return r, false
+		}
+		if isInteger(e.Typ) && isFloat(e.Args[0].Typ) {
+			return Rng{applyMode(r.Lo, ModeTrunc, big.NewRat(1, 1)), applyMode(r.Hi, ModeTrunc, big.NewRat(1, 1))}, true
+		}
+		return r, true
+	case OpBin:
+		x, okx := EvalRange(e.Args[0], env)
+		y, oky := EvalRange(e.Args[1], env)
+		if !okx || !oky {
+			return Rng{}, false
+		}
+		switch e.Tok {
+		case token.ADD:
+			return Rng{new(big.Rat).Add(x.Lo, y.Lo), new(big.Rat).Add(x.Hi, y.Hi)}, true
+		case token.SUB:
+			return Rng{new(big.Rat).Sub(x.Lo, y.Hi), new(big.Rat).Sub(x.Hi, y.Lo)}, true
+		case token.MUL:
+			c := []*big.Rat{new(big.Rat).Mul(x.Lo, y.Lo), new(big.Rat).Mul(x.Lo, y.Hi), new(big.Rat).Mul(x.Hi, y.Lo), new(big.Rat).Mul(x.Hi, y.Hi)}
+			lo, hi := c[0], c[0]
+			for _, v := range c {
+				if v.Cmp(lo) < 0 {
+					lo = v
+				}
+				if v.Cmp(hi) > 0 {
+					hi = v
+				}
+			}
+			return Rng{lo, hi}, true
+		case token.REM:
+			if y.Lo.Cmp(y.Hi) == 0 && y.Lo.Sign() > 0 && x.Lo.Sign() >= 0 {
+				return Rng{new(big.Rat), new(big.Rat).Sub(y.Lo, big.NewRat(1, 1))}, true
+			}
+		case token.QUO:
+			if y.Lo.Cmp(y.Hi) == 0 && y.Lo.Sign() > 0 {
+				lo, hi := new(big.Rat).Quo(x.Lo, y.Lo), new(big.Rat).Quo(x.Hi, y.Lo)
+				if isInteger(e.Typ) {
+					lo, hi = applyMode(lo, ModeTrunc, big.NewRat(1, 1)), applyMode(hi, ModeTrunc, big.NewRat(1, 1))
+				}
+				return Rng{lo, hi}, true
+			}
+		}
+	case OpCall:
+		if e.Fn != nil {
+			switch e.Fn.String() {
+			case "(time.Duration).Seconds":
+				r, ok := EvalRange(e.Args[0], env)
+				if !ok {
+					return r, false
+				}
+				q := big.NewRat(1, 1000000000)
+				return Rng{new(big.Rat).Mul(r.Lo, q), new(big.Rat).Mul(r.Hi, q)}, true
+			}
+		}
+	}
+	return Rng{}, false
+}
